@@ -21,6 +21,11 @@ type Var struct {
 	T   Type
 	Pts RootSet // for reference-typed variables
 	Obj *Root   // for array/struct-valued variables: the variable's own object
+	// ZeroDecl: declared by `var x T` without initialiser (x is the zero value, nil for a
+	// reference type, until assigned); GotLost: some assignment stored a value whose
+	// references the analysis had lost.  A ZeroDecl variable with an empty points-to set
+	// that never GotLost provably carries no reference.
+	ZeroDecl, GotLost bool
 }
 
 // FT translates one function body.
